@@ -234,6 +234,8 @@ func checkC12(w *World, tier string) *Report {
 	r.need("R12.3c", 12)
 	r.Assumptions = append(r.Assumptions, "StateDB getters (GetState, …) do not change observable state", "the recorder (Tracer family) has no effect outside itself: C01 R1.4a")
 	addNeverFailsRule(w, r, "R11.8") // a well-formed key journal cannot be refused because of earlier registrations
+	addRegistrationRefusalRule(w, r, "R12.6")
+	r.Explanation += " R12.6 every condition that decides an error return of StateChanges.saveKey is a test of the offset operand, a nil test of a parameter, the parent not found by findKey, or the error of a callee: a well-formed key journal is not refused because of what was or was not recorded before (e.g. an account without a root yet)."
 	addJustifiedRefusalRule(w, r, "R12.5", []string{"loadDataFromMem"}, nil)
 	r.need("R12.5", 4)
 	return r
@@ -607,6 +609,9 @@ func checkC10(w *World, tier string) *Report {
 	addFindKeyPurityRule(w, r, "R10.6")
 	addSaveChangeLookupRule(w, r, "R10.7")
 	addMonotoneIndexRule(w, r, "R10.8")
+	addMustRecordRule(w, r, "R10.9")
+	addRecordedValueFreshRule(w, r, "R10.10")
+	r.Explanation += " R10.9 every return with a nil error of the eight journal instructions is preceded on every path by the recorder call (no frame kind — e.g. a static one — is silently exempt); R10.10 the value handed to the recorder has no field or captured variable among its may-alias roots (a scratch buffer of the interpreter would be rewritten by later instructions, mixing the lists of different calls and accounts)."
 	s := w.e1()
 	want := map[string]bool{"(*Contract).Address": true, "(*Contract).AsDelegate": true, "NewContract": true, "(*EVM).DelegateCall": true, "(*EVM).CallCode": true,
 		"opDelegateCall": true, "opCallCode": true, "(*Contract).Caller": true, "(*Contract).SetCallCode": true, "(*Contract).SetCodeOptionalHash": true}
